@@ -1,6 +1,6 @@
 (** Properties/C10.v — Derive-time validation accepts exactly the well-formed declarations.
     Statements only. *)
-From DarlingModel Require Import Options.Resolve Options.FieldOrderProofs Options.VariantOrderProofs Options.ContainerOrderProofs Spec.C10 Options.SpecBridge.
+From DarlingModel Require Import Options.Resolve Options.FieldOrderProofs Options.VariantOrderProofs Options.ContainerOrderProofs Spec.C10 Options.SpecBridge Options.ComposeProofs.
 From Coq Require Import Permutation.
 Local Open Scope string_scope.
 Local Open Scope list_scope.
@@ -200,7 +200,40 @@ Theorem C10_container_reading_is_the_chain_without_from_ident :
      <-> container_wf reparse reparse_preds t attrs = true).
 Proof. exact container_chain_is_the_reading_without_from_ident. Qed.
 
+(** THE COMPOSITION.  For each of the six derives and EVERY declaration - struct, enum or union, any
+    options on the container, the fields, the variants and the fields of the variants, written in
+    any order and split over attributes in any way, malformed attributes included - the model of
+    the derive emits an implementation exactly when the declaration is well-formed in the sense of
+    Spec/C10.v (the order-free reading of the property that every run evaluates on the code's own
+    verdict) and no `default` is written after a `from_ident` on the container (the recorded
+    finding: the one place where order matters).  [decl_shaped]: attributes are never bare
+    literals and the fields of a tuple struct have no identifier - what syn delivers; executable
+    as [decl_shapedb], evaluated on every declaration the check runs. *)
+Theorem C10_derive_accepts_exactly_the_well_formed :
+  forall reparse reparse_preds t d,
+    decl_shaped d ->
+    ((exists c b, resolve reparse reparse_preds t d = Accepted c b)
+     <-> well_formed_10 reparse reparse_preds t d = true /\ no_default_after_from_ident (rd_attrs d)).
+Proof. exact resolve_is_the_reading. Qed.
+
+Theorem C10_executable_shape_test_is_sound : forall d, decl_shapedb d = true -> decl_shaped d.
+Proof. exact decl_shapedb_sound. Qed.
+
+(** Non-vacuity: a generic struct with a flatten field and a renamed field is shaped, well-formed and accepted. *)
+Example C10_composition_nonvacuous :
+  let it s := word_item s in
+  let d := mkRDecl (0,0,0,0)%N [darling_attr [it "allow_unknown_fields"]]
+                   (RStruct StNamed [mkRField (Some "a") (0,0,0,0)%N None [darling_attr [it "flatten"]] Usage.NOpaque;
+                                     mkRField (Some "b") (0,0,0,0)%N None [darling_attr [it "skip"]; darling_attr [it "default"]] Usage.NOpaque]
+                            (0,0,0,0)%N) [] in
+  decl_shapedb d = true
+  /\ well_formed_10 (fun _ _ => None) (fun _ => None) DFromMeta d = true
+  /\ (exists c b, resolve (fun _ _ => None) (fun _ => None) DFromMeta d = Accepted c b).
+Proof. cbv zeta. split; [reflexivity|]. split; [vm_compute; reflexivity|]. vm_compute. eauto. Qed.
+
 Print Assumptions C10_field_reading_is_the_chain.
+Print Assumptions C10_derive_accepts_exactly_the_well_formed.
+Print Assumptions C10_executable_shape_test_is_sound.
 Print Assumptions C10_container_reading_is_the_chain.
 Print Assumptions C10_container_reading_is_the_chain_without_from_ident.
 Print Assumptions C10_variant_reading_is_the_chain.
